@@ -60,7 +60,7 @@ def yields_under_contextvar_scope(an: Analysis, fi: FunctionInfo):
 
 
 def generator_functions(an: Analysis) -> list[FunctionInfo]:
-    return [f for f in an.prog.functions.values() if f.is_generator()]
+    return [f for f in an.prog.scan_functions() if f.is_generator()]
 
 
 def check(an: Analysis) -> None:
